@@ -183,13 +183,28 @@ def kill_sweep(res, s, op, pre_bytes, old, new, scratch, check_snapshots):
     res.count("kill.ops_swept")
     res.count("kill.syscalls_in_dry_runs", len(calls))
     mon = _Snap()
-    mon.snaps.append(("<child ran to completion>", kernel_bytes(db)))
+    def _sibs():
+        out = {}
+        for n in os.listdir(wdir):
+            p_ = os.path.join(wdir, n)
+            if os.path.isfile(p_) and p_ != db and n not in ("job.json", "out.json", "strace.log"):
+                out[n] = kernel_bytes(p_) or b""
+        return out
+
+    def _clean():
+        for n in os.listdir(wdir):
+            p_ = os.path.join(wdir, n)
+            if os.path.isfile(p_) and n not in ("job.json", "out.json", "strace.log"):
+                os.unlink(p_)
+
+    mon.snaps.append(("<child ran to completion>", kernel_bytes(db), _sibs()))
     for k in range(len(calls)):
         name, j = address(calls, k)
         if name not in MUTATING:
             # dying before a call that cannot change the file leaves the state reached by the calls before it
             res.count("kill.non_mutating_calls_subsumed")
             continue
+        _clean()
         with open(db, "wb") as f:
             f.write(pre_bytes)
         rc2, calls2, _ = run_child(job, db, wdir, inject=f"{name}:signal=SIGKILL:when={j}")
@@ -197,7 +212,7 @@ def kill_sweep(res, s, op, pre_bytes, old, new, scratch, check_snapshots):
         if rc2 == 0 or not hit_as_addressed(calls, k, calls2, "kill"):
             res.count("kill.misaddressed_skipped")
             continue
-        mon.snaps.append((f"#{k}:syscall.{name}:{calls[k][1][:80]}", kernel_bytes(db)))
+        mon.snaps.append((f"#{k}:syscall.{name}:{calls[k][1][:80]}", kernel_bytes(db), _sibs()))
     check_snapshots(res, s, op, old, new, mon, scratch, origin="kill")
     shutil.rmtree(wdir, ignore_errors=True)
 
